@@ -5,7 +5,7 @@
    Only statements; every proof is `exact <lemma>`. *)
 From Coq Require Import List ZArith QArith Qcanon Bool Arith.
 From Dimod Require Import Base.Util Model.Poly Model.Comb Gen.Gen_Gates Model.Gates
-  Proofs.GatesFacts Props.Comb Gen.Gen_Combinations Proofs.CombRule Gen.Gen_Graph Proofs.GraphConstants Model.Knap Proofs.KnapFacts Model.QKnap Gen.Gen_Knap Proofs.KnapGen Model.MultCircuit Proofs.MultFacts Proofs.MultArith Proofs.MultAttain Proofs.MultAll Model.Qap Proofs.QapFacts Model.Magic Proofs.MagicFacts Model.Sat Proofs.SatFacts Gen.Gen_Sat Proofs.SatGen Gen.Gen_Shapes Proofs.ShapeLocks Model.RandomDraws Gen.Gen_RandomDraws Proofs.RandomDrawsFacts Proofs.QapExact Model.FrustLoop Proofs.FrustLoopFacts.
+  Proofs.GatesFacts Props.Comb Gen.Gen_Combinations Proofs.CombRule Gen.Gen_Graph Proofs.GraphConstants Model.Knap Proofs.KnapFacts Model.QKnap Gen.Gen_Knap Proofs.KnapGen Model.MultCircuit Proofs.MultFacts Proofs.MultArith Proofs.MultAttain Proofs.MultAll Model.Qap Proofs.QapFacts Model.Magic Proofs.MagicFacts Model.Sat Proofs.SatFacts Gen.Gen_Sat Proofs.SatGen Gen.Gen_Shapes Proofs.ShapeLocks Model.RandomDraws Gen.Gen_RandomDraws Proofs.RandomDrawsFacts Proofs.QapExact Gen.Gen_Qap Model.QapGen Proofs.QapGenFacts Model.FrustLoop Proofs.FrustLoopFacts.
 Import ListNotations.
 
 (* energy 0 on exactly the rows of the truth table, >= 1 on every other row (strength 1) *)
@@ -501,3 +501,308 @@ Print Assumptions C17_fcl_planted_ground_state.
 Example C17_ex_fulladder : fulladder_energy [true; true; false; false; true] = 0%Z /\
                            fulladder_energy [true; true; false; true; true] = 1%Z.
 Proof. vm_compute. split; reflexivity. Qed.
+
+(* ---------- quadratic_assignment: the construction GENERATED from the source (Gen/Gen_Qap.v) ---------- *)
+(* translators/qap_construction.py emits the creation order of the variables, the guard and the bias expression of the
+   product(range(n), repeat=4) loop, the list of set_quadratic calls in loop order and both constraint families;
+   Model/QapGen.v replays the calls with Model/Poly.v's set_quadratic (last write of an unordered pair survives). *)
+Theorem C17_qapg_coef_is_source :
+  forall F D i j k l, gq_coef (mget F) (mget D) i j k l = qap_coef F D i j k l.
+Proof. exact gq_coef_is_source. Qed.
+Print Assumptions C17_qapg_coef_is_source.
+
+(* the four nested loops visit the ordered pairs of different cells p = i*n+j, q = k*n+l in increasing (p, q) *)
+Theorem C17_qapg_writes_cells :
+  forall n F D, gq_writes n F D = writes2 (n * n) (cell_coef n F D).
+Proof. exact gq_writes_cells. Qed.
+Print Assumptions C17_qapg_writes_cells.
+
+(* after the replay the bias of the unordered pair {a, b}, b < a, is the one written at its LATER visit (a, b) *)
+Theorem C17_qapg_coefficient_is_source :
+  forall n F D a b, (b < a)%nat -> (a < n * n)%nat ->
+    quad_coeff (p_quad (qapg_objective n F D)) a b = cell_coef n (mget F) (mget D) a b.
+Proof. exact qapg_coefficient_is_source. Qed.
+Print Assumptions C17_qapg_coefficient_is_source.
+
+(* TIE: generated construction and hand-written mirror: same energy on EVERY assignment, every n, all matrices *)
+Theorem C17_qapg_objective_is_source :
+  forall n F D (x : sample), energy (qapg_objective n F D) x = energy (qap_objective n F D) x.
+Proof. exact qapg_objective_is_source. Qed.
+Print Assumptions C17_qapg_objective_is_source.
+
+Theorem C17_qapg_constraints_is_source : forall n, qapg_constraints n = qap_constraints n.
+Proof. exact qapg_constraints_is_source. Qed.
+Print Assumptions C17_qapg_constraints_is_source.
+
+(* the documented relation, re-proved over the generated construction: on "facility i at location pi(i)" the objective
+   is sum_{i <> k} flow[i][k] * dist[pi(i)][pi(k)] for ANY flows when the distance matrix is symmetric *)
+Theorem C17_qapg_cost_symmetric :
+  forall n F D (pi : nat -> nat) (x : sample),
+    (forall i, (i < n)%nat -> (pi i < n)%nat) -> symmetric n D ->
+    (forall i j, (i < n)%nat -> (j < n)%nat -> x (gq_index n i j) = onehot_sample n pi i j) ->
+    energy (qapg_objective n F D) x = qap_cost n F D pi.
+Proof. exact qapg_cost_symmetric. Qed.
+Print Assumptions C17_qapg_cost_symmetric.
+
+Theorem C17_qapg_feasible :
+  forall n F D (x : sample),
+    feasibleb (qapg_model n F D) x = true
+    <-> (forall i, (i < n)%nat -> qap_row n x i = 1%Qc) /\ (forall j, (j < n)%nat -> qap_col n x j = 1%Qc).
+Proof. exact qapg_feasible. Qed.
+Print Assumptions C17_qapg_feasible.
+
+(* ... and with an asymmetric distance matrix the generated construction does NOT give the documented cost *)
+Theorem C17_qapg_asymmetric_refuted :
+  energy (qapg_objective 2 F_ex D_ex) (perm_sample 2 (fun i => i)) <> qap_cost 2 F_ex D_ex (fun i => i).
+Proof. exact qapg_asymmetric_refuted. Qed.
+Print Assumptions C17_qapg_asymmetric_refuted.
+
+(* ---------- magic_square: the construction GENERATED from the source (Gen/Gen_Magic.v) ---------- *)
+From Dimod Require Import Gen.Gen_Magic Model.MagicGen Proofs.MagicGenFacts.
+
+(* the degree-2 terms of the uniqueness sum, generated in loop order, are those of the mirror *)
+Theorem C17_magicg_uniq_quad_is_source : forall n, gm_uniq_quad n = p_quad (uniq_poly n).
+Proof. exact gm_uniq_quad_is_source. Qed.
+Print Assumptions C17_magicg_uniq_quad_is_source.
+
+(* (size**4 - size**2)/2 of the source (a float division) is the integer the mirror uses: n^4 - n^2 is even *)
+Theorem C17_magicg_uniq_rhs_is_source : forall n, magicg_uniq_rhs n = uniq_rhs n.
+Proof. exact magicg_uniq_rhs_is_source. Qed.
+Print Assumptions C17_magicg_uniq_rhs_is_source.
+
+(* TIE: for the two powers the source accepts the generated list of constraints IS the mirror's, for every n *)
+Theorem C17_magicg_constraints_is_source :
+  forall n power, power = 1%nat \/ power = 2%nat -> magicg_constraints n power = magic_constraints n power.
+Proof. exact magicg_constraints_is_source. Qed.
+Print Assumptions C17_magicg_constraints_is_source.
+
+Theorem C17_magicg_feasible_is_source :
+  forall n power (x : sample), power = 1%nat \/ power = 2%nat ->
+    forallb (fun c => qcon_satb c x) (magicg_constraints n power) = magic_feasibleb n power x.
+Proof. exact magicg_feasible_is_source. Qed.
+Print Assumptions C17_magicg_feasible_is_source.
+
+(* ---------- random generators with every PRNG draw an ORACLE parameter (Model/RandStruct.v) ---------- *)
+(* frustrated_loop: accumulation over loops and the R cut-off (fcl.py); doped, gnm_random_bqm, gnp_random_bqm
+   (random.py); chimera_anticluster (chimera.py).  Statements hold for ANY draws. *)
+From Dimod Require Import Model.RandStruct Proofs.RandStructFacts.
+Local Open Scope Z_scope.
+
+(* fcl.py 144: the "random" closing coupling of plant_solution=False is always +1 *)
+Theorem C17_fl_noplant_closing_is_afm :
+  forall L,
+    noplant_values L = repeat (-1) (L - 1) ++ [1].
+Proof. exact fl_noplant_closing_is_afm. Qed.
+Print Assumptions C17_fl_noplant_closing_is_afm.
+
+(* ... so the plant_solution=False loop is the planted loop with idx = 0: nothing is sampled *)
+Theorem C17_fl_noplant_is_plant0 :
+  forall c,
+    loop_noplant c = loop_plant c 0.
+Proof. exact fl_noplant_is_plant0. Qed.
+Print Assumptions C17_fl_noplant_is_plant0.
+
+(* the R cut-off for R = Rn/Rd > 0 and ANY random walk: every accumulated coupling stays below R + 1 ... *)
+Theorem C17_fl_cutoff_bound :
+  forall Rn Rd plant num maxfail G cds e,
+    0 < Rd -> 0 < Rn ->
+  Rd * Z.abs (stJ (fl_run Rn Rd plant num maxfail G cds) e) < Rn + Rd.
+Proof. exact fl_cutoff_bound. Qed.
+Print Assumptions C17_fl_cutoff_bound.
+
+(* ... and every edge still offered to the random walk is strictly below R *)
+Theorem C17_fl_alive_below_R :
+  forall Rn Rd plant num maxfail G cds e,
+    0 < Rd -> 0 < Rn ->
+  stAlive (fl_run Rn Rd plant num maxfail G cds) e = true ->
+  Rd * Z.abs (stJ (fl_run Rn Rd plant num maxfail G cds) e) < Rn.
+Proof. exact fl_alive_below_R. Qed.
+Print Assumptions C17_fl_alive_below_R.
+
+(* integer R (the error message says "R should be a positive integer"): |J| <= R *)
+Theorem C17_fl_cutoff_integer_R :
+  forall R plant num maxfail G cds e,
+    0 < R ->
+  Z.abs (stJ (fl_run R 1 plant num maxfail G cds) e) <= R.
+Proof. exact fl_cutoff_integer_R. Qed.
+Print Assumptions C17_fl_cutoff_integer_R.
+
+(* for a fractional R (R is typed float, default inf) "|J| <= R" is FALSE: R = 1/2 on a triangle *)
+Theorem C17_fl_cutoff_fractional_R_refuted :
+  exists Rn Rd plant num maxfail G cds e, 0 < Rd /\ 0 < Rn /\
+    ~ (Rd * Z.abs (stJ (fl_run Rn Rd plant num maxfail G cds) e) <= Rn).
+Proof. exact fl_cutoff_fractional_R_refuted. Qed.
+Print Assumptions C17_fl_cutoff_fractional_R_refuted.
+
+(* accumulation: the couplings are the sum of exactly the good loops (fcl.py 147), there are at most num_cycles
+   of them, and each is a loop of >= 3 distinct edges with one +1 coupling and -1 elsewhere *)
+Theorem C17_fl_accumulates :
+  forall Rn Rd plant num maxfail G cds,
+    let st := fl_run Rn Rd plant num maxfail G cds in
+  (forall e, stJ st e = fl_zsum (map (fun lp => coef lp e) (stAcc st))) /\
+  length (stAcc st) = stGood st /\ (stGood st <= num)%nat /\
+  Forall (fun lp => exists c i, (3 <= length c)%nat /\ NoDup (cycle_edges c) /\ lp = loop_plant c i) (stAcc st).
+Proof. exact fl_accumulates. Qed.
+Print Assumptions C17_fl_accumulates.
+
+(* for ANY draws: on a graph without repeated edges the coupling of the i-th edge IS the i-th draw, nothing else is
+   coupled, linear biases and offset are 0 *)
+Theorem C17_doped_structure :
+  forall edges draws,
+    length draws = length edges -> NoDup (doped_keys edges) ->
+  map (doped_J edges draws) (doped_keys edges) = draws /\
+  (forall e, ~ In e (doped_keys edges) -> doped_J edges draws e = 0) /\
+  (forall v, doped_linear edges v = 0) /\ doped_offset = 0.
+Proof. exact doped_structure. Qed.
+Print Assumptions C17_doped_structure.
+
+(* choice([1, -1], p=[p, 1-p]) returns an element of positive probability: every coupling is +-1;
+   with p = 0 (fm) or p = 1 (not fm) all are -1, with p = 1 (fm) or p = 0 (not fm) all are +1 *)
+Theorem C17_doped_couplings_pm1 :
+  forall p fm edges draws,
+    length draws = length edges -> NoDup (doped_keys edges) ->
+  Forall (doped_allowed p fm) draws ->
+  Forall fl_pm1 (map (doped_J edges draws) (doped_keys edges)) /\
+  ((if fm then p else pflip p) = P0 -> Forall (fun x => x = -1) (map (doped_J edges draws) (doped_keys edges))) /\
+  ((if fm then p else pflip p) = P1 -> Forall (fun x => x = 1) (map (doped_J edges draws) (doped_keys edges))).
+Proof. exact doped_couplings_pm1. Qed.
+Print Assumptions C17_doped_couplings_pm1.
+
+(* add_interaction ACCUMULATES: with an edge listed twice (an edge list [(0,1),(1,0)] is accepted by
+   graph_argument) the coupling is not +-1 *)
+Theorem C17_doped_repeated_edge_refuted :
+  exists edges draws, length draws = length edges /\ Forall fl_pm1 draws /\
+    ~ Forall fl_pm1 (map (doped_J edges draws) (doped_keys edges)).
+Proof. exact doped_repeated_edge_refuted. Qed.
+Print Assumptions C17_doped_repeated_edge_refuted.
+
+(* `variables, edges = graph` but `variables` is never used: isolated nodes of the graph are dropped *)
+Theorem C17_doped_keeps_all_nodes_refuted :
+  exists (nodes : list nat) edges, Forall (fun uv => In (fst uv) nodes /\ In (snd uv) nodes) edges /\
+    exists v, In v nodes /\ ~ In v (doped_vars edges).
+Proof. exact doped_keeps_all_nodes_refuted. Qed.
+Print Assumptions C17_doped_keeps_all_nodes_refuted.
+
+(* random.py 116-131.  The test `randint(m - t) < m - k` is ALWAYS true (k <= t), so whatever randint returns the
+   m interactions are the FIRST m pairs of the upper triangle in row-major order, with qbias[0..m-1] in order:
+   gnm_random_bqm draws no random graph at all *)
+Theorem C17_gnm_selection_is_prefix :
+  forall n m draws,
+    length draws = m -> gnm_draws_ok m 0 draws ->
+  gnm_sets n m draws = gnm_prefix n m 0 1 0.
+Proof. exact gnm_selection_is_prefix. Qed.
+Print Assumptions C17_gnm_selection_is_prefix.
+
+(* num_interactions = min(n(n-1)//2, requested) (random.py 98-99): exactly m set_quadratic calls, with qbias indices
+   0..m-1, every one on a pair ui < vi < num_variables (labels[ui], labels[vi] exist; no self-loop) *)
+Theorem C17_gnm_structure :
+  forall n m draws,
+    length draws = m -> gnm_draws_ok m 0 draws -> (2 * m <= n * (n - 1))%nat ->
+  length (gnm_sets n m draws) = m /\ map snd (gnm_sets n m draws) = seq 0 m /\
+  Forall (gnm_valid n) (gnm_sets n m draws).
+Proof. exact gnm_structure. Qed.
+Print Assumptions C17_gnm_structure.
+
+(* the selected pairs do not depend on the draws *)
+Theorem C17_gnm_draws_irrelevant :
+  forall n m d1 d2,
+    length d1 = m -> length d2 = m -> gnm_draws_ok m 0 d1 -> gnm_draws_ok m 0 d2 ->
+  gnm_sets n m d1 = gnm_sets n m d2.
+Proof. exact gnm_draws_irrelevant. Qed.
+Print Assumptions C17_gnm_draws_irrelevant.
+
+(* for ANY uniform draws: (u, w) is an interaction iff u < w < n and the draw of row u, column w was below p *)
+Theorem C17_gnp_edges_spec :
+  forall n ex u w,
+    In (u, w) (gnp_edges n ex) <-> (u < w < n)%nat /\ ex u (w - u - 1)%nat = true.
+Proof. exact gnp_edges_spec. Qed.
+Print Assumptions C17_gnp_edges_spec.
+
+(* irow/icol are allocated with num_interactions entries and filled exactly (random.py 196-210) *)
+Theorem C17_gnp_count :
+  forall n ex,
+    length (gnp_edges n ex) = gnp_num_interactions n ex.
+Proof. exact gnp_count. Qed.
+Print Assumptions C17_gnp_count.
+
+(* for ANY signs: the first len(inrow) biases (intra-tile) are +-1, the others (inter-tile) +-multiplier *)
+Theorem C17_anti_qdata_biases :
+  forall n_in mult signs,
+    Forall fl_pm1 signs ->
+  exists A B, anti_qdata n_in mult signs = A ++ B /\ length A = Nat.min n_in (length signs) /\
+    length (A ++ B) = length signs /\
+    Forall fl_pm1 A /\ Forall (fun x => x = mult \/ x = - mult) B /\
+    (forall v, anti_linear v = 0) /\ anti_offset = 0.
+Proof. exact anti_qdata_biases. Qed.
+Print Assumptions C17_anti_qdata_biases.
+
+(* _iter_chimera_tile_edges: an intra-tile edge joins the two shores of ONE tile c:
+   k0 = 2t*c + x, k1 = 2t*c + t + y with x, y < t *)
+Theorem C17_tile_edges_intra :
+  forall m n t k0 k1,
+    In (k0, k1) (tile_edges m n t) ->
+  exists c x y, (x < t)%nat /\ (y < t)%nat /\ k0 = (c * (2 * t) + x)%nat /\ k1 = (c * (2 * t) + t + y)%nat.
+Proof. exact tile_edges_intra. Qed.
+Print Assumptions C17_tile_edges_intra.
+
+(* a cycle returned by _random_cycle has pairwise distinct vertices (walk[visited[u]:] of a walk that stops at
+   the first revisit) and, never stepping straight back, at least 3 of them: its edges are pairwise distinct
+   (the comment at fcl.py 187), so dict cycle_J has len(cycle) keys and each edge moves by exactly +-1 *)
+Theorem C17_cycle_edges_distinct :
+  forall c,
+    NoDup c -> (3 <= length c)%nat -> NoDup (cycle_edges c).
+Proof. exact cycle_edges_distinct. Qed.
+Print Assumptions C17_cycle_edges_distinct.
+
+(* so the model has exactly num_interactions interactions: every set_quadratic hits a fresh pair *)
+Theorem C17_gnm_pairs_distinct :
+  forall n m draws,
+    length draws = m -> gnm_draws_ok m 0 draws -> (2 * m <= n * (n - 1))%nat ->
+  NoDup (map fst (gnm_sets n m draws)) /\ length (map fst (gnm_sets n m draws)) = m.
+Proof. exact gnm_pairs_distinct. Qed.
+Print Assumptions C17_gnm_pairs_distinct.
+
+(* the quadratic biases of gnm are exactly the generated qbias, in order; so each lies wherever bias_generator
+   puts its values (default uniform(size=n): [0, 1)) *)
+Theorem C17_gnm_biases :
+  forall n m draws qbias lo hi,
+    length draws = m -> gnm_draws_ok m 0 draws -> length qbias = m ->
+  map snd (gnm_quadratic n m draws qbias) = qbias /\
+  (Forall (fun x => lo <= x <= hi) qbias -> Forall (fun x => lo <= x <= hi) (map snd (gnm_quadratic n m draws qbias))).
+Proof. exact gnm_biases. Qed.
+Print Assumptions C17_gnm_biases.
+
+Theorem C17_gnp_pairs_distinct :
+  forall n ex,
+    NoDup (gnp_edges n ex).
+Proof. exact gnp_pairs_distinct. Qed.
+Print Assumptions C17_gnp_pairs_distinct.
+
+(* fcl.py 148-151, for ANY walk: at every moment the edges offered to _random_cycle are exactly the graph edges with
+   |J| < R (an edge is removed when, and only when, it reaches R), and nothing outside the graph is ever coupled *)
+Theorem C17_fl_alive_iff :
+  forall Rn Rd plant num maxfail G cds e,
+    0 < Rn ->
+  let st := fl_run Rn Rd plant num maxfail G cds in
+  (stAlive st e = true <-> In e G /\ Rd * Z.abs (stJ st e) < Rn) /\ (~ In e G -> stJ st e = 0).
+Proof. exact fl_alive_iff. Qed.
+Print Assumptions C17_fl_alive_iff.
+
+(* an inter-tile edge joins the SAME shore position of two neighbouring tiles:
+   horizontal shore (offset t + x) one tile to the right (+2t), or vertical shore (offset x) one row down (+2t*n) *)
+Theorem C17_intertile_edges_shape :
+  forall m n t a b,
+    In (a, b) (intertile_edges m n t) ->
+  exists c x, (x < t)%nat /\
+    ((a = (c * (2 * t) + t + x)%nat /\ b = (a + 2 * t)%nat) \/ (a = (c * (2 * t) + x)%nat /\ b = (a + n * (2 * t))%nat)).
+Proof. exact intertile_edges_shape. Qed.
+Print Assumptions C17_intertile_edges_shape.
+
+(* irow = inrow + outrow: no pair is both an intra-tile and an inter-tile edge, so from_numpy_vectors never adds a
+   +-1 and a +-multiplier on the same interaction (guard `if m and n and t`: n > 0) *)
+Theorem C17_anti_intra_inter_disjoint :
+  forall m n t a b,
+    (0 < n)%nat ->
+  In (a, b) (tile_edges m n t) -> In (a, b) (intertile_edges m n t) -> False.
+Proof. exact anti_intra_inter_disjoint. Qed.
+Print Assumptions C17_anti_intra_inter_disjoint.
